@@ -60,6 +60,9 @@ type provCache struct {
 	busy     map[ssa.Value]bool
 	hitCycle bool
 	allocUse map[*ssa.Alloc][]ssa.Instruction
+	// escapes[a] lists allocs (typically a varargs array) into which the
+	// address of a was stored; a call taking those also takes a.
+	escapes map[*ssa.Alloc][]*ssa.Alloc
 }
 
 func newProvCache(p *Prog, fn *ssa.Function) *provCache {
@@ -114,6 +117,7 @@ func (pc *provCache) indexAllocs() {
 		return
 	}
 	pc.allocUse = map[*ssa.Alloc][]ssa.Instruction{}
+	pc.escapes = map[*ssa.Alloc][]*ssa.Alloc{}
 	var visit func(fn *ssa.Function)
 	visit = func(fn *ssa.Function) {
 		for _, b := range fn.Blocks {
@@ -122,6 +126,9 @@ func (pc *provCache) indexAllocs() {
 				case *ssa.Store:
 					if a := baseAlloc(x.Addr); a != nil {
 						pc.allocUse[a] = append(pc.allocUse[a], in)
+						if src := baseAlloc(x.Val); src != nil && src != a && isPointerLike(x.Val) {
+							pc.escapes[src] = append(pc.escapes[src], a)
+						}
 					}
 				case ssa.CallInstruction:
 					seen := map[*ssa.Alloc]bool{}
@@ -287,9 +294,40 @@ func (pc *provCache) callResult(c *ssa.Call) ProvSet {
 	return s
 }
 
+// isPointerLike: v denotes the address of (part of) an alloc rather than a
+// loaded value.
+func isPointerLike(v ssa.Value) bool {
+	switch x := v.(type) {
+	case *ssa.Alloc, *ssa.FieldAddr, *ssa.IndexAddr:
+		return true
+	case *ssa.MakeInterface:
+		return isPointerLike(x.X)
+	case *ssa.Slice:
+		return true
+	case *ssa.Convert:
+		return isPointerLike(x.X)
+	case *ssa.ChangeType:
+		return isPointerLike(x.X)
+	}
+	return false
+}
+
 func (pc *provCache) allocContents(a *ssa.Alloc) ProvSet {
 	pc.indexAllocs()
 	s := ProvSet{}
+	for _, d := range pc.escapes[a] {
+		for _, in := range pc.allocUse[d] {
+			if c, ok := in.(ssa.CallInstruction); ok {
+				name := pc.p.calleeOf(c.Common()).Name
+				if name == "" {
+					name = "?"
+				}
+				if !strings.HasPrefix(name, "builtin.") {
+					s["out:"+name] = true
+				}
+			}
+		}
+	}
 	for _, in := range pc.allocUse[a] {
 		switch x := in.(type) {
 		case *ssa.Store:
